@@ -708,7 +708,8 @@ def _ordering_convention_obligation(obs):
                             function=f"{GATES}::CONSTANT_GATES[CX]", engine="fdx", detail=f"{type(e).__name__}: {e}"))
 
 
-def provider_gates(tier="quick", root=None):
+def provider_gates(tier="quick", root=None, only_names=None):
+    """only_names: restrict to these registered gate names (selftest mutants); None = every registered gate"""
     obs = []
     root = root or repo_root()
     t0 = time.time()
@@ -722,9 +723,13 @@ def provider_gates(tier="quick", root=None):
     sp, _ = _sympy_backend()
     tb_param, tb_const = _textbook(sp)
     for name in sorted(mod.PARAM_GATES):
-        _param_gate_obligations(mod, name, mod.PARAM_GATES[name], tree, tb_param, obs)
+        if only_names is None or name in only_names:
+            _param_gate_obligations(mod, name, mod.PARAM_GATES[name], tree, tb_param, obs)
     for name in sorted(mod.CONSTANT_GATES):
-        _const_gate_obligations(name, mod.CONSTANT_GATES[name], tb_const, obs)
+        if only_names is None or name in only_names:
+            _const_gate_obligations(name, mod.CONSTANT_GATES[name], tb_const, obs)
+    if only_names is not None:
+        return obs
     _ordering_convention_obligation(obs)
     # registry census: every registered name is either parametrised, constant or special-without-array (none today)
     other = sorted(set(mod.ALL_GATES) - set(mod.PARAM_GATES) - set(mod.CONSTANT_GATES))
@@ -733,3 +738,1269 @@ def provider_gates(tier="quick", root=None):
                         engine="E2", detail=dict(not_covered=other, param=len(mod.PARAM_GATES),
                                                  constant=len(mod.CONSTANT_GATES))))
     return obs
+
+
+# =====================================================================================================================
+#  Provider 2 -- E4: typestate of the query cache (AST of the real classes, re-read on every run)
+#
+#  Ghost  valid(c)  :=  the cached query results of circuit c (fields CACHE_FIELDS) were computed for the current gate
+#  list, parameters and state of c.   How THIS version implements it (read from core.py and checked below as leaf
+#  obligations): ``_maybe_init_storage`` compares the stamp ``_sample_n_gates`` with ``num_gates == len(_gates)`` and
+#  calls ``clear_storage`` when they differ; ``clear_storage`` empties every cache field and sets the stamp to
+#  ``num_gates``.  Consequently
+#     * appending to ``_gates`` invalidates by itself (the counter the validator compares moves; the stamp never
+#       exceeds the counter because the list only grows),
+#     * every other change of what queries depend on -- replacing an entry of ``_gates``, writing a ``params`` attribute
+#       or a ``*param*`` field, an in-place change of the state ``_psi`` that is not followed by an append -- must be
+#       followed by ``clear_storage()`` on every non-raising path, and ``_gates`` must never shrink or be rebound.
+#
+#  Rules (one obligation per method and applicable rule, id  <file>::<Class>.<method>::cache-<rule>):
+#   R1  every read / write of a cache field is dominated by a validator call on the same receiver with no intervening
+#       event that can change gates / parameters / state (derived summaries of callees are applied at every call site).
+#       Receivers other than self: a local that aliases an object stored in self's cache ("cache-owned", e.g. the
+#       sub-circuits of sample_gate_by_gate) is covered by valid(self); any other foreign receiver needs its own
+#       validator call; stores to a freshly created object are R4's business.
+#   R2  valid is havoc'd at every yield (the caller may apply gates before resuming); additionally every local that
+#       aliases cache content is dead after a yield until re-assigned.
+#   R3  see above: at every normal exit no un-invalidated mutation is pending; ``_gates`` only grows.
+#   R4  a method that writes cache fields of another (fresh) object, and the constructor, either writes ALL cache fields
+#       or leaves the object recognisably invalid (stamp = negative constant and the containers the invalidator calls
+#       .clear() on are initialised).
+#   R5  for every store into a cache container the free variables of the stored value are covered by the key, by
+#       self-state (covered by valid) or by REPR_ONLY_ARGS (assumption).
+#  Leaf summaries are declared here (names of validator / invalidator / stamp / gate list / state; representation-only
+#  operations) and their structural content is itself checked (cache-leaf-* obligations).
+# =====================================================================================================================
+
+VALIDATOR = "_maybe_init_storage"
+INVALIDATOR = "clear_storage"
+STAMP = "_sample_n_gates"
+COUNTER_PROP = "num_gates"
+GATE_LIST = "_gates"
+STATE = "_psi"
+DECLARED_CACHE_FIELDS = ("_storage", "_sampled_conditionals", "_marginal_storage_size", "_sample_n_gates")
+LIST_GROW = {"append", "extend", "insert"}
+LIST_SHRINK = {"pop", "remove", "clear", "reverse", "sort", "__delitem__", "__setitem__"}
+CONTAINER_MUTATORS = {"update", "pop", "popitem", "clear", "setdefault", "__setitem__", "__delitem__", "append",
+                      "extend", "insert", "remove"}
+# in-place operations on the state network that change its representation, not the state it denotes
+# (C04: gauging / squeezing / casting preserve the denoted tensor; tags carry no value)
+REPR_ONLY_STATE_METHODS = {"squeeze_", "astype_", "gauge_all_simple_", "add_tag", "apply_to_arrays", "view_as_",
+                           "view_like_"}
+# in-place spellings of the state network that have no trailing underscore
+INPLACE_STATE_METHODS_NO_UNDERSCORE = {"apply_to_arrays", "add_tag", "drop_tags", "retag_all", "randomize"}
+# whole methods declared representation-only, with the precondition that makes them so
+REPR_ONLY_METHODS = {
+    "apply_to_arrays": "fn converts backend / dtype and preserves the denoted values (true at every call site inside "
+                       "the package: optimize.py to_constant / to_numpy / convert_raw_arrays); a value-changing fn "
+                       "changes parameters without invalidating the cache or the gate record",
+    "_maybe_convert": "casts dtype / moves arrays to another backend (to_backend) only",
+}
+# query arguments that select a route / representation / precision, not the value (assumptions of R5)
+REPR_ONLY_ARGS = {
+    "optimize": "contraction path: every route gives the same value (C01)",
+    "backend": "array library used for the contraction",
+    "dtype": "precision of the contraction (floats are interpreted over the reals)",
+    "equalize_norms": "norm bookkeeping of the simplification (C04)",
+    "simplify_equalize_norms": "norm bookkeeping of the simplification (C04)",
+    "simplify_sequence": "which value-preserving simplifications run (C04)",
+    "seq": "which value-preserving simplifications run (C04)",
+    "simplify_atol": "tolerance below which entries are treated as zero by the simplifier: an approximation knob; "
+                     "conditionals cached under one tolerance are reused under another",
+    "atol": "tolerance of the simplifier (approximation knob)",
+    "progbar": "display only",
+}
+CONSTRUCTORS = {"__init__"}
+IN, CLEAN, DIRTY = 1, 0, 2
+
+
+class FuncInfo:
+    def __init__(self, cls, name, node, kind):
+        self.cls, self.name, self.node, self.kind = cls, name, node, kind  # kind: method|property|setter|static|class
+        self.is_generator = any(isinstance(n, (ast.Yield, ast.YieldFrom)) for n in _walk_same_scope(node))
+        a = node.args
+        self.params = [x.arg for x in a.posonlyargs + a.args + a.kwonlyargs]
+        if a.vararg:
+            self.params.append(a.vararg.arg)
+        if a.kwarg:
+            self.params.append(a.kwarg.arg)
+        self.selfname = self.params[0] if (self.params and kind not in ("static", "class")) else None
+
+    @property
+    def qual(self):
+        return f"{self.cls.name}.{self.name}"
+
+    @property
+    def public(self):
+        return not self.name.startswith("_")
+
+
+def _walk_same_scope(node):
+    """nodes of a function body without descending into nested defs / lambdas / classes"""
+    stack = list(ast.iter_child_nodes(node))
+    while stack:
+        n = stack.pop()
+        yield n
+        if isinstance(n, (ast.FunctionDef, ast.AsyncFunctionDef, ast.Lambda, ast.ClassDef)):
+            continue
+        stack.extend(ast.iter_child_nodes(n))
+
+
+class ClassInfo:
+    def __init__(self, rel, node):
+        self.rel, self.node, self.name = rel, node, node.name
+        self.bases = [b.id if isinstance(b, ast.Name) else (b.attr if isinstance(b, ast.Attribute) else None)
+                      for b in node.bases]
+        self.methods, self.aliases = {}, {}
+        for st in node.body:
+            if isinstance(st, (ast.FunctionDef, ast.AsyncFunctionDef)):
+                kind, name = "method", st.name
+                for d in st.decorator_list:
+                    if isinstance(d, ast.Name) and d.id == "property":
+                        kind = "property"
+                    elif isinstance(d, ast.Name) and d.id == "staticmethod":
+                        kind = "static"
+                    elif isinstance(d, ast.Name) and d.id == "classmethod":
+                        kind = "class"
+                    elif isinstance(d, ast.Attribute) and d.attr == "setter":
+                        kind, name = "setter", f"{st.name}.setter"
+                self.methods[name] = FuncInfo(self, name, st, kind)
+            elif isinstance(st, ast.Assign) and len(st.targets) == 1 and isinstance(st.targets[0], ast.Name) \
+                    and isinstance(st.value, ast.Call) and st.value.args and isinstance(st.value.args[0], ast.Name):
+                # name = functools.partialmethod(target, ...) / deprecated(target, ...): alias of a method of this body
+                self.aliases[st.targets[0].id] = st.value.args[0].id
+
+
+class Hierarchy:
+    def __init__(self, root=None):
+        self.root = root or repo_root()
+        self.classes = {}
+        d = os.path.join(self.root, CIRC)
+        for fn in sorted(os.listdir(d)):
+            if not fn.endswith(".py"):
+                continue
+            rel = f"{CIRC}/{fn}"
+            with open(os.path.join(d, fn)) as f:
+                tree = ast.parse(f.read())
+            for node in tree.body:
+                if isinstance(node, ast.ClassDef):
+                    self.classes[node.name] = ClassInfo(rel, node)
+        roots = [c for c in self.classes.values() if VALIDATOR in c.methods]
+        self.base = roots[0] if roots else None
+        self.circuit_classes = [c for c in self.classes.values() if self.base and self.base.name in
+                                [k.name for k in self.mro(c)]]
+
+    def mro(self, c):
+        out, seen = [], set()
+
+        def go(k):
+            if k is None or k.name in seen:
+                return
+            seen.add(k.name)
+            out.append(k)
+            for b in k.bases:
+                go(self.classes.get(b))
+        go(c)
+        return out
+
+    def resolve(self, ctx, name, after=None):
+        """(FuncInfo | None): method ``name`` as seen from an instance of class ctx (after = skip up to and including
+        that class in the MRO, for super())"""
+        chain = self.mro(ctx)
+        if after is not None:
+            names = [k.name for k in chain]
+            chain = chain[names.index(after.name) + 1:] if after.name in names else []
+        for k in chain:
+            if name in k.methods:
+                return k.methods[name]
+            if name in k.aliases and k.aliases[name] in k.methods:
+                return k.methods[k.aliases[name]]
+        return None
+
+    def subclasses_inheriting(self, fi):
+        """context classes in which fi is the resolved implementation of its name"""
+        base_name = fi.name.split(".")[0] if fi.kind == "setter" else fi.name
+        out = []
+        for k in self.circuit_classes:
+            if fi.cls.name in [x.name for x in self.mro(k)]:
+                r = self.resolve(k, fi.name)
+                if r is fi:
+                    out.append(k)
+        return out or [fi.cls]
+
+
+def _is_self_attr(node, selfname, attr=None):
+    return (isinstance(node, ast.Attribute) and isinstance(node.value, ast.Name) and node.value.id == selfname
+            and (attr is None or node.attr == attr))
+
+
+def _rooted_at_self(node, selfname):
+    while isinstance(node, (ast.Attribute, ast.Subscript, ast.Call)):
+        node = node.func if isinstance(node, ast.Call) else node.value
+    return isinstance(node, ast.Name) and node.id == selfname
+
+
+class Summary:
+    def __init__(self, inv_exit, dirty_exit, is_generator, violations, notes, r4, r5, touches, unresolved, raw_new=()):
+        self.inv_exit, self.dirty_exit, self.is_generator = inv_exit, dirty_exit, is_generator
+        self.violations, self.notes, self.r4, self.r5 = violations, notes, r4, r5
+        self.touches, self.unresolved, self.raw_new = touches, unresolved, set(raw_new)
+
+
+PESSIMISTIC = Summary(frozenset({"entry", "mut"}), DIRTY, False, [], [], {}, [], set(), set())
+
+
+class CacheAnalysis:
+    def __init__(self, hier):
+        self.h = hier
+        self.memo = {}
+        self.cache_fields, self.cleared_by_call = self._cache_fields()
+        self.containers = set(self.cleared_by_call)
+        self.callers = {}  # (ctx, qual) -> set of caller quals
+
+    # ---------------------------------------------------------------- leaf: which fields form the cache
+    def _cache_fields(self):
+        fields, by_call = set(DECLARED_CACHE_FIELDS), set()
+        inv = self.h.base.methods.get(INVALIDATOR) if self.h.base else None
+        if inv is not None:
+            s = inv.selfname
+            for n in ast.walk(inv.node):
+                if isinstance(n, ast.Assign):
+                    for t in n.targets:
+                        if _is_self_attr(t, s):
+                            fields.add(t.attr)
+                if isinstance(n, ast.Call) and isinstance(n.func, ast.Attribute) and _is_self_attr(n.func.value, s) \
+                        and n.func.attr == "clear":
+                    fields.add(n.func.value.attr)
+                    by_call.add(n.func.value.attr)
+        return fields, by_call
+
+    # ---------------------------------------------------------------- taint: locals that alias cache content
+    def _taint(self, fi):
+        s = fi.selfname
+        tainted, fresh, state_alias = set(), set(), set()
+        if s is None:
+            return tainted, fresh, state_alias
+
+        def is_alias_expr(e):
+            if isinstance(e, ast.Name):
+                return e.id in tainted
+            if _is_self_attr(e, s) and e.attr in self.containers:
+                return True
+            if isinstance(e, ast.Subscript):
+                return is_alias_expr(e.value)
+            if isinstance(e, ast.Call) and isinstance(e.func, ast.Attribute) and e.func.attr in (
+                    "get", "values", "items", "keys", "setdefault", "pop"):
+                return is_alias_expr(e.func.value)
+            return False
+
+        def is_fresh_expr(e):
+            if not isinstance(e, ast.Call):
+                return False
+            f = e.func
+            if isinstance(f, ast.Attribute) and f.attr == "__new__":
+                return True
+            if isinstance(f, ast.Attribute) and f.attr in ("copy", "__class__", "__copy__", "__deepcopy__"):
+                v = f.value
+                if isinstance(v, ast.Call) and isinstance(v.func, ast.Name) and v.func.id == "super":
+                    return True
+                if isinstance(v, ast.Name) and v.id == s:
+                    return True
+            if isinstance(f, ast.Name) and f.id == "cls":
+                return True
+            return False
+
+        changed = True
+        while changed:
+            changed = False
+            for n in _walk_same_scope(fi.node):
+                pairs = []
+                if isinstance(n, ast.Assign):
+                    for t in n.targets:
+                        pairs.append((t, n.value))
+                        # value stored INTO a cache container becomes an alias of cache content
+                        if isinstance(t, ast.Subscript) and _is_self_attr(t.value, s) and t.value.attr in self.containers \
+                                and isinstance(n.value, ast.Name) and n.value.id not in tainted:
+                            tainted.add(n.value.id)
+                            changed = True
+                elif isinstance(n, (ast.For, ast.AsyncFor)):
+                    pairs.append((n.target, n.iter))
+                elif isinstance(n, ast.NamedExpr):
+                    pairs.append((n.target, n.value))
+                for t, v in pairs:
+                    names = [x.id for x in ast.walk(t) if isinstance(x, ast.Name)] if not isinstance(t, ast.Name) else [t.id]
+                    if isinstance(t, (ast.Subscript, ast.Attribute)):
+                        continue
+                    if is_alias_expr(v):
+                        for nm in names:
+                            if nm not in tainted:
+                                tainted.add(nm)
+                                changed = True
+                    if isinstance(t, ast.Name) and is_fresh_expr(v) and t.id not in fresh:
+                        fresh.add(t.id)
+                        changed = True
+                    if isinstance(t, ast.Name) and _is_self_attr(v, s, STATE) and t.id not in state_alias:
+                        state_alias.add(t.id)
+                        changed = True
+        return tainted, fresh, state_alias
+
+    # ---------------------------------------------------------------- summaries (memoised per context class)
+    def summary(self, ctx, fi):
+        key = (ctx.name, fi.qual)
+        if key in self.memo:
+            return self.memo[key] or PESSIMISTIC  # None = in progress (recursion): pessimistic
+        self.memo[key] = None
+        s = _MethodRun(self, ctx, fi).run()
+        self.memo[key] = s
+        return s
+
+
+class _MethodRun:
+    def __init__(self, an, ctx, fi):
+        self.an, self.h, self.ctx, self.fi = an, an.h, ctx, fi
+        self.s = fi.selfname
+        self.viol = {}     # (rule, line, msg) -> None (ordered)
+        self.notes = {}
+        self.exits = []
+        self.r4 = {}       # receiver -> {field: value node}
+        self.r5 = []       # (line, container, key node, value node, receiver)
+        self.touches = set()
+        self.unresolved = set()
+        self.tainted, self.fresh, self.state_alias = an._taint(fi)
+        self.raw_new = {n.targets[0].id for n in _walk_same_scope(fi.node) if isinstance(n, ast.Assign)
+                        and isinstance(n.targets[0], ast.Name) and isinstance(n.value, ast.Call)
+                        and isinstance(n.value.func, ast.Attribute) and n.value.func.attr == "__new__"}
+        self.exempt = fi.name in (VALIDATOR, INVALIDATOR) or fi.name in CONSTRUCTORS
+        self.waive_mut = fi.name in REPR_ONLY_METHODS or fi.name in CONSTRUCTORS
+
+    # ---- state: (inv frozenset, dirty int, stale frozenset, fvalid frozenset)
+    @staticmethod
+    def join(a, b):
+        if a is None:
+            return b
+        if b is None:
+            return a
+        return (a[0] | b[0], max(a[1], b[1]), a[2] | b[2], a[3] & b[3])
+
+    def flag(self, rule, line, msg):
+        self.viol.setdefault((rule, line, msg), None)
+
+    def run(self):
+        st = (frozenset({"entry"}), IN, frozenset(), frozenset())
+        out = self.block(self.fi.node.body, st, None)
+        if out is not None:
+            self.exits.append(out)
+        ex = None
+        for e in self.exits:
+            ex = self.join(ex, e)
+        if ex is None:  # every path raises
+            ex = (frozenset({"entry"}), IN, frozenset(), frozenset())
+        return Summary(ex[0], ex[1], self.fi.is_generator, list(self.viol), list(self.notes), self.r4, self.r5,
+                       self.touches, self.unresolved, self.raw_new)
+
+    # ---------------------------------------------------------------- statements
+    def block(self, stmts, st, loop):
+        for x in stmts:
+            if st is None:
+                return None
+            st = self.stmt(x, st, loop)
+        return st
+
+    def stmt(self, x, st, loop):
+        if isinstance(x, (ast.FunctionDef, ast.AsyncFunctionDef, ast.ClassDef)):
+            # deferred body: cache accesses inside are checked against the state at the definition point (the closure
+            # is normally called right away); establishing / mutating effects of a nested body are ignored
+            for y in ast.walk(x):
+                if isinstance(y, ast.Attribute) and isinstance(y.value, ast.Name) and y.attr in self.an.cache_fields:
+                    self.event(("access", y.value.id, y.attr, y.lineno, "nested-def", None), st, True)
+            return st
+        if isinstance(x, ast.Return):
+            if x.value is not None:
+                st = self.expr(x.value, st)
+            self.exits.append(st)
+            return None
+        if isinstance(x, ast.Raise):
+            if x.exc is not None:
+                self.expr(x.exc, st)
+            return None
+        if isinstance(x, ast.If):
+            st = self.expr(x.test, st)
+            a = self.block(x.body, st, loop)
+            b = self.block(x.orelse, st, loop)
+            return self.join(a, b)
+        if isinstance(x, (ast.For, ast.AsyncFor, ast.While)):
+            if isinstance(x, ast.While):
+                head_ev = lambda s_: self.expr(x.test, s_)
+            else:
+                st = self.expr(x.iter, st)
+                head_ev = lambda s_: self.store_target(x.target, None, s_, False)
+            lp = dict(breaks=None, conts=None)
+            head = st
+            for _ in range(8):
+                body_in = head_ev(head)
+                lp["conts"] = None
+                end = self.block(x.body, body_in, lp)
+                end = self.join(end, lp["conts"])
+                new_head = self.join(head, end)
+                if new_head == head:
+                    break
+                head = new_head
+            after = head_ev(head) if isinstance(x, ast.While) else head
+            infinite = isinstance(x, ast.While) and isinstance(x.test, ast.Constant) and x.test.value is True
+            out = None if infinite else self.block(x.orelse, after, loop) if x.orelse else after
+            return self.join(out, lp["breaks"])
+        if isinstance(x, ast.Break):
+            loop["breaks"] = self.join(loop["breaks"], st)
+            return None
+        if isinstance(x, ast.Continue):
+            loop["conts"] = self.join(loop["conts"], st)
+            return None
+        if isinstance(x, (ast.With, ast.AsyncWith)):
+            for it in x.items:
+                st = self.expr(it.context_expr, st)
+                if it.optional_vars is not None:
+                    st = self.store_target(it.optional_vars, None, st, False)
+            return self.block(x.body, st, loop)
+        if isinstance(x, ast.Try) or x.__class__.__name__ == "TryStar":
+            # handlers may start from any intermediate state of the body
+            mid = st
+            cur = st
+            for y in x.body:
+                if cur is None:
+                    break
+                cur = self.stmt(y, cur, loop)
+                mid = self.join(mid, cur)
+            outs = []
+            if cur is not None:
+                outs.append(self.block(x.orelse, cur, loop) if x.orelse else cur)
+            for hnd in x.handlers:
+                outs.append(self.block(hnd.body, mid, loop))
+            res = None
+            for o in outs:
+                res = self.join(res, o)
+            if x.finalbody:
+                res = self.block(x.finalbody, res if res is not None else mid, loop) if res is not None else None
+            return res
+        if isinstance(x, ast.Match):
+            st = self.expr(x.subject, st)
+            res = st
+            for c in x.cases:
+                res = self.join(res, self.block(c.body, st, loop))
+            return res
+        return self.simple_stmt(x, st, cond=False)
+
+    def simple_stmt(self, x, st, cond):
+        if isinstance(x, ast.Assign):
+            transfer = any(isinstance(t, ast.Attribute) and isinstance(t.value, ast.Name) and t.value.id != self.s
+                           and t.attr in self.an.cache_fields and t.value.id in self.fresh for t in x.targets)
+            st = self.expr(x.value, st, cond=cond, transfer=transfer)
+            for t in x.targets:
+                st = self.store_target(t, x.value, st, cond)
+            return st
+        if isinstance(x, ast.AnnAssign):
+            if x.value is not None:
+                st = self.expr(x.value, st, cond=cond)
+                st = self.store_target(x.target, x.value, st, cond)
+            return st
+        if isinstance(x, ast.AugAssign):
+            # load target, value, store target
+            st = self.expr(self._as_load(x.target), st, cond=cond)
+            st = self.expr(x.value, st, cond=cond)
+            return self.store_target(x.target, x.value, st, cond)
+        if isinstance(x, ast.Delete):
+            for t in x.targets:
+                if isinstance(t, ast.Subscript) and _is_self_attr(t.value, self.s, GATE_LIST):
+                    st = self.event(("shrink", "del self._gates[...]", t.lineno), st, cond)
+                else:
+                    st = self.expr(self._as_load(t), st, cond=cond)
+            return st
+        if isinstance(x, ast.Expr):
+            return self.expr(x.value, st, cond=cond)
+        if isinstance(x, ast.Assert):
+            return self.expr(x.test, st, cond=cond)
+        if isinstance(x, ast.Return) and x.value is not None:
+            return self.expr(x.value, st, cond=cond)
+        return st
+
+    @staticmethod
+    def _as_load(t):
+        import copy as _c
+        t2 = _c.copy(t)
+        t2.ctx = ast.Load()
+        return t2
+
+    def store_target(self, t, value, st, cond):
+        s = self.s
+        if isinstance(t, (ast.Tuple, ast.List)):
+            for e in t.elts:
+                st = self.store_target(e, value, st, cond)
+            return st
+        if isinstance(t, ast.Starred):
+            return self.store_target(t.value, value, st, cond)
+        if isinstance(t, ast.Name):
+            return (st[0], st[1], st[2] - {t.id}, st[3] - {t.id})
+        if isinstance(t, ast.Attribute):
+            if isinstance(t.value, ast.Name):
+                r = t.value.id
+                if t.attr in self.an.cache_fields:
+                    return self.event(("access", r, t.attr, t.lineno, "store", value), st, cond)
+                if r == s and t.attr == GATE_LIST:
+                    return self.event(("shrink", "self._gates rebound", t.lineno), st, cond)
+                if r == s and t.attr == STATE:
+                    return self.event(("mutate", "state", "self._psi rebound", t.lineno), st, cond)
+                if r == s and "param" in t.attr:
+                    return self.event(("mutate", "params", f"self.{t.attr} assigned", t.lineno), st, cond)
+            st = self.expr(t.value, st, cond=cond)
+            if "param" in t.attr and _rooted_at_self(t.value, s):
+                return self.event(("mutate", "params", f"<...>.{t.attr} assigned", t.lineno), st, cond)
+            if isinstance(t.value, ast.Name) and t.value.id in self.state_alias and "param" in t.attr:
+                return self.event(("mutate", "params", f"{t.value.id}.{t.attr} assigned", t.lineno), st, cond)
+            return st
+        if isinstance(t, ast.Subscript):
+            st = self.expr(t.slice, st, cond=cond)
+            v = t.value
+            if _is_self_attr(v, s, GATE_LIST):
+                return self.event(("mutate", "gates", "self._gates[i] replaced", t.lineno), st, cond)
+            if isinstance(v, ast.Attribute) and isinstance(v.value, ast.Name) and v.attr in self.an.cache_fields:
+                st = self.event(("access", v.value.id, v.attr, t.lineno, "store-item", value), st, cond)
+                if v.attr in self.an.containers and not any(q[0] == t.lineno and q[1] == v.attr for q in self.r5):
+                    self.r5.append((t.lineno, v.attr, t.slice, value, v.value.id))
+                return st
+            if _is_self_attr(v, s) and "param" in v.attr:
+                return self.event(("mutate", "params", f"self.{v.attr}[...] assigned", t.lineno), st, cond)
+            return self.expr(v, st, cond=cond)
+        return st
+
+    # ---------------------------------------------------------------- expressions (evaluation order)
+    def expr(self, e, st, cond=False, transfer=False):
+        if e is None or st is None:
+            return st
+        s = self.s
+        E = lambda n, st_, c=cond: self.expr(n, st_, c, transfer)
+        if isinstance(e, ast.Name):
+            if isinstance(e.ctx, ast.Load) and e.id in st[2]:
+                self.flag("R2", e.lineno, f"local '{e.id}' aliases cache content read before a yield and is used after it "
+                                          f"without being re-read")
+            return st
+        if isinstance(e, ast.Constant):
+            return st
+        if isinstance(e, ast.Attribute):
+            if isinstance(e.value, ast.Name):
+                r = e.value.id
+                if e.attr in self.an.cache_fields:
+                    if transfer and r == s:
+                        self.touches.add("cache")
+                        return st  # value copied to the same field of a fresh object: R4
+                    return self.event(("access", r, e.attr, e.lineno, "load", None), st, cond)
+                if r == s and s is not None:
+                    if e.attr == "__dict__":
+                        self.flag("REFLECT", e.lineno, "self.__dict__ used: reflective access defeats the analysis")
+                    tgt = self.h.resolve(self.ctx, e.attr)
+                    if tgt is not None and tgt.kind == "property":
+                        return self.event(("callself", tgt, e.lineno, False), st, cond)
+                return E(e.value, st)
+            if e.attr in self.an.cache_fields and self.s is not None:
+                self.touches.add("cache")
+                self.flag("R1", e.lineno, f"access to <{ast.unparse(e.value)}>.{e.attr}: cache field of a computed receiver, "
+                                          f"which cannot be validated")
+            return E(e.value, st)
+        if isinstance(e, (ast.Yield, ast.YieldFrom, ast.Await)):
+            if isinstance(e, ast.YieldFrom) and isinstance(e.value, ast.Call):
+                st = self.call(e.value, st, cond, transfer, yield_from=True)
+            elif e.value is not None:
+                st = E(e.value, st)
+            return self.event(("yield", e.lineno), st, cond)
+        if isinstance(e, ast.Call):
+            return self.call(e, st, cond, transfer, yield_from=False)
+        if isinstance(e, ast.BoolOp):
+            st = E(e.values[0], st)
+            for v in e.values[1:]:
+                st = self.join(st, self.expr(v, st, True, transfer))
+            return st
+        if isinstance(e, ast.IfExp):
+            st = E(e.test, st)
+            return self.join(self.expr(e.body, st, True, transfer), self.expr(e.orelse, st, True, transfer))
+        if isinstance(e, ast.Lambda):
+            self.expr(e.body, st, True, transfer)
+            return st
+        if isinstance(e, (ast.ListComp, ast.SetComp, ast.GeneratorExp, ast.DictComp)):
+            saved, own = st[2], set()
+            for g in e.generators:
+                st = E(g.iter, st)
+                own |= set(_target_names(g.target))   # comprehension variables live in their own scope
+                st = (st[0], st[1], st[2] - own, st[3])
+                for c in g.ifs:
+                    st = self.expr(c, st, True, transfer)
+            for part in ([e.key, e.value] if isinstance(e, ast.DictComp) else [e.elt]):
+                st = self.expr(part, st, True, transfer)
+            return (st[0], st[1], (st[2] - own) | (saved & own), st[3])
+        if isinstance(e, ast.NamedExpr):
+            st = E(e.value, st)
+            return self.store_target(e.target, e.value, st, cond)
+        for ch in ast.iter_child_nodes(e):
+            if isinstance(ch, ast.expr):
+                st = E(ch, st)
+            elif isinstance(ch, (ast.keyword,)):
+                st = E(ch.value, st)
+            elif isinstance(ch, ast.Slice):
+                for q in (ch.lower, ch.upper, ch.step):
+                    st = E(q, st)
+        return st
+
+    def call(self, e, st, cond, transfer, yield_from):
+        s = self.s
+        f = e.func
+        E = lambda n, st_: self.expr(n, st_, cond, transfer)
+        # 1. receiver expression (without the attribute itself), then arguments
+        recv = None
+        if isinstance(f, ast.Attribute):
+            recv = f.value
+            special_recv = (isinstance(recv, ast.Name) or _is_self_attr(recv, s)
+                            or (isinstance(recv, ast.Call) and isinstance(recv.func, ast.Name) and recv.func.id == "super"))
+            if not special_recv:
+                st = E(recv, st)
+            elif isinstance(recv, ast.Name):
+                st = E(recv, st)
+            elif _is_self_attr(recv, s) and recv.attr in self.an.cache_fields:
+                if transfer:
+                    self.touches.add("cache")  # self.<field>.copy() assigned to the same field of a fresh object: R4
+                else:
+                    st = self.event(("access", s, recv.attr, recv.lineno, "call:" + f.attr, None), st, cond)
+            elif _is_self_attr(recv, s):
+                tgt = self.h.resolve(self.ctx, recv.attr)
+                if tgt is not None and tgt.kind == "property":
+                    st = self.event(("callself", tgt, recv.lineno, False), st, cond)
+        else:
+            st = E(f, st)
+        for a in e.args:
+            st = E(a.value if isinstance(a, ast.Starred) else a, st)
+        for k in e.keywords:
+            st = E(k.value, st)
+        # 2. the call itself
+        line = e.lineno
+        passes_self = any(isinstance(a, ast.Name) and a.id == s for a in e.args) or \
+            any(isinstance(k.value, ast.Name) and k.value.id == s for k in e.keywords)
+        passes_state = any(self._is_state(a) for a in e.args) or \
+            any(self._is_state(k.value) for k in e.keywords if k.arg != "like")
+        if isinstance(f, ast.Name):
+            if f.id in ("getattr", "setattr", "delattr", "hasattr") and e.args and isinstance(e.args[0], ast.Name) \
+                    and e.args[0].id == s:
+                nm = e.args[1].value if len(e.args) > 1 and isinstance(e.args[1], ast.Constant) else None
+                if nm in self.an.cache_fields and f.id != "hasattr":
+                    if transfer and f.id == "getattr":
+                        self.touches.add("cache")  # copied to the same field of a fresh object: R4
+                    else:
+                        st = self.event(("access", s, nm, line, f.id, None), st, cond)
+                elif nm is None and f.id != "hasattr":
+                    self.flag("REFLECT", line, f"{f.id}(self, <computed name>): reflective access defeats the analysis")
+                return st
+            if f.id == "vars" and passes_self:
+                self.flag("REFLECT", line, "vars(self): reflective access defeats the analysis")
+                return st
+            if f.id in ("isinstance", "type", "id", "repr", "str", "len", "super", "print", "hash"):
+                return st
+            if passes_state:
+                st = self.event(("mutate", "state", f"self._psi passed to {f.id}(...)", line), st, cond)
+            if passes_self:
+                st = self.event(("havoc", f"self passed to {f.id}(...)", line), st, cond)
+            return st
+        if isinstance(f, ast.Attribute):
+            m = f.attr
+            # self.method(...)
+            if isinstance(recv, ast.Name) and recv.id == s and s is not None:
+                if m == VALIDATOR:
+                    return self.event(("validate", s, line), st, cond)
+                if m == INVALIDATOR:
+                    return self.event(("invalidate", line), st, cond)
+                tgt = self.h.resolve(self.ctx, m)
+                if tgt is None:
+                    self.unresolved.add(f"self.{m}")
+                    return st
+                if passes_state and tgt.name not in REPR_ONLY_METHODS:
+                    st = self.event(("mutate", "state", f"self._psi passed to self.{m}(...)", line), st, cond)
+                return self.event(("callself", tgt, line, yield_from), st, cond)
+            # super().method(...)
+            if isinstance(recv, ast.Call) and isinstance(recv.func, ast.Name) and recv.func.id == "super":
+                tgt = self.h.resolve(self.ctx, m, after=self.fi.cls)
+                if tgt is None:
+                    return st
+                if m == VALIDATOR:
+                    return self.event(("validate", s, line), st, cond)
+                if m == INVALIDATOR:
+                    return self.event(("invalidate", line), st, cond)
+                return self.event(("callself", tgt, line, yield_from), st, cond)
+            # self._gates.<m>(...)
+            if _is_self_attr(recv, s, GATE_LIST):
+                if m in LIST_GROW:
+                    return self.event(("grow", line), st, cond)
+                if m in LIST_SHRINK:
+                    return self.event(("shrink", f"self._gates.{m}(...)", line), st, cond)
+                return st
+            # self._psi.<m>(...) or alias.<m>(...)
+            if self._is_state(recv):
+                inplace = m.endswith("_") or m in INPLACE_STATE_METHODS_NO_UNDERSCORE
+                if inplace and m not in REPR_ONLY_STATE_METHODS:
+                    return self.event(("mutate", "state", f"in-place state operation .{m}(...)", line), st, cond)
+                if inplace:
+                    self.notes.setdefault(f"representation-only in-place state operation .{m}(...) at line {line}", None)
+                return st
+            # self.<param field>.<mutator>(...)
+            if _is_self_attr(recv, s) and "param" in recv.attr and m in CONTAINER_MUTATORS:
+                return self.event(("mutate", "params", f"self.{recv.attr}.{m}(...)", line), st, cond)
+            # foreign.validator()
+            if isinstance(recv, ast.Name) and recv.id != s and m == VALIDATOR:
+                return self.event(("validate", recv.id, line), st, cond)
+            if isinstance(recv, ast.Name) and recv.id != s and m == INVALIDATOR:
+                return self.event(("validate", recv.id, line), st, cond)
+            if passes_state:
+                st = self.event(("mutate", "state", f"self._psi passed to .{m}(...)", line), st, cond)
+            if passes_self:
+                st = self.event(("havoc", f"self passed to .{m}(...)", line), st, cond)
+            return st
+        # e.g. SPECIAL_GATES[label](self._psi, ...)
+        if passes_state:
+            st = self.event(("mutate", "state", "self._psi passed to a computed callable", line), st, cond)
+        if passes_self:
+            st = self.event(("havoc", "self passed to a computed callable", line), st, cond)
+        return st
+
+    def _is_state(self, n):
+        return _is_self_attr(n, self.s, STATE) or (isinstance(n, ast.Name) and n.id in self.state_alias)
+
+    # ---------------------------------------------------------------- events
+    def event(self, ev, st, cond):
+        inv, dirty, stale, fvalid = st
+        k = ev[0]
+        if k == "validate":
+            if cond:
+                return st
+            if ev[1] == self.s:
+                self.touches.add("validate")
+                return (frozenset(), dirty, stale, fvalid)
+            return (inv, dirty, stale, fvalid | {ev[1]})
+        if k == "invalidate":
+            self.touches.add("invalidate")
+            if cond:
+                return st
+            return (frozenset(), CLEAN, stale, fvalid)
+        if k == "grow":
+            self.touches.add("mutate")
+            return (inv | {"mut"}, dirty if cond else CLEAN, stale, fvalid)
+        if k == "mutate":
+            self.touches.add("mutate")
+            if self.waive_mut:
+                self.notes.setdefault(f"waived ({self.fi.name} is declared representation-only / constructor): {ev[2]} "
+                                      f"at line {ev[3]}", None)
+                return st
+            return (inv | {"mut"}, DIRTY, stale, fvalid)
+        if k == "shrink":
+            self.touches.add("mutate")
+            if self.fi.name not in CONSTRUCTORS:
+                self.flag("R3", ev[2], f"{ev[1]}: the gate list must only grow (the validator compares a counter)")
+            return (inv | {"mut"}, DIRTY if self.fi.name not in CONSTRUCTORS else dirty, stale, fvalid)
+        if k == "havoc":
+            return (inv | {"mut"}, dirty, stale, fvalid)
+        if k == "yield":
+            self.touches.add("yield")
+            return (inv | {"yield"}, dirty, stale | frozenset(self.tainted), frozenset())
+        if k == "callself":
+            tgt, line, yf = ev[1], ev[2], ev[3]
+            self.an.callers.setdefault((self.ctx.name, tgt.qual), set()).add(self.fi.qual)
+            sm = self.an.summary(self.ctx, tgt)
+            if sm.touches - {"yield"}:
+                self.touches.add("call")
+            cinv = sm.inv_exit - {"entry"}
+            if not yf:
+                cinv = cinv - {"yield"}
+            elif sm.is_generator:
+                self.touches.add("yield")
+            ninv = (inv if "entry" in sm.inv_exit else frozenset()) | cinv
+            ndirty = dirty if sm.dirty_exit == IN else sm.dirty_exit
+            if cond:  # conditional evaluation: keep the pessimistic side
+                ninv, ndirty = inv | ninv, max(dirty, ndirty)
+            nstale = stale | (frozenset(self.tainted) if (yf and "yield" in sm.inv_exit) else frozenset())
+            return (ninv, ndirty, nstale, fvalid)
+        if k == "access":
+            r, field, line, how, value = ev[1], ev[2], ev[3], ev[4], ev[5]
+            self.touches.add("cache")
+            if r == self.s:
+                if self.exempt:
+                    if how == "store" and self.fi.name in CONSTRUCTORS:
+                        self.r4.setdefault(r, {})[field] = value
+                    return st
+                self._check_valid(inv, line, f"self.{field}")
+                return st
+            if r in self.tainted:  # cache-owned object: covered by valid(self)
+                if r in stale:
+                    self.flag("R2", line, f"cache-owned object '{r}' obtained before a yield is used after it")
+                self._check_valid(inv, line, f"{r}.{field} (object owned by self's cache)")
+                return st
+            if r in self.fresh and how == "store":
+                self.r4.setdefault(r, {})[field] = value
+                return st
+            if r not in fvalid:
+                self.flag("R1", line, f"{how} of {r}.{field}: foreign receiver '{r}' is not validated on this path")
+            return st
+        return st
+
+    def _check_valid(self, inv, line, what):
+        if "yield" in inv:
+            self.flag("R2", line, f"access to {what} after a yield without re-validation")
+        if "mut" in inv:
+            self.flag("R1", line, f"access to {what} after an operation that may change gates / parameters / state, "
+                                  f"without re-validation")
+        if "entry" in inv:
+            self.flag("R1", line, f"access to {what} not dominated by a {VALIDATOR}() call")
+
+
+# ---------------------------------------------------------------------------------------------------------------------
+#  R5: free variables of a cached value versus its key
+# ---------------------------------------------------------------------------------------------------------------------
+
+def _names(node):
+    return {n.id for n in ast.walk(node) if isinstance(n, ast.Name)} if node is not None else set()
+
+
+def _target_names(t):
+    if isinstance(t, ast.Name):
+        return [t.id]
+    if isinstance(t, (ast.Tuple, ast.List)):
+        return [n for e in t.elts for n in _target_names(e)]
+    if isinstance(t, ast.Starred):
+        return _target_names(t.value)
+    return []
+
+
+def r5_uncovered(fi, line, key_node, value_node, recv):
+    """parameters of the method the cached value depends on (flow-insensitive data dependence inside the method) that
+    are neither named in the key expression, nor self-state, nor the receiver"""
+    params = set(fi.params) - {fi.selfname}
+    defs = {}
+
+    def add(name, lineno, names):
+        defs.setdefault(name, []).append((lineno, set(names)))
+
+    for n in _walk_same_scope(fi.node):
+        if isinstance(n, ast.Assign):
+            for t in n.targets:
+                for nm in _target_names(t):
+                    add(nm, n.lineno, _names(n.value))
+                if isinstance(t, (ast.Subscript, ast.Attribute)):
+                    base = t
+                    while isinstance(base, (ast.Subscript, ast.Attribute)):
+                        base = base.value
+                    if isinstance(base, ast.Name):
+                        add(base.id, n.lineno, _names(n.value) | (_names(t.slice) if isinstance(t, ast.Subscript) else set()))
+        elif isinstance(n, ast.AugAssign):
+            for nm in _target_names(n.target):
+                add(nm, n.lineno, _names(n.value))
+        elif isinstance(n, (ast.For, ast.AsyncFor)):
+            for nm in _target_names(n.target):
+                add(nm, n.lineno, _names(n.iter))
+        elif isinstance(n, ast.comprehension):
+            for nm in _target_names(n.target):
+                add(nm, getattr(n.iter, "lineno", 0), _names(n.iter))
+        elif isinstance(n, (ast.With, ast.AsyncWith)):
+            for it in n.items:
+                if it.optional_vars is not None:
+                    for nm in _target_names(it.optional_vars):
+                        add(nm, n.lineno, _names(it.context_expr))
+        elif isinstance(n, ast.NamedExpr):
+            add(n.target.id, n.lineno, _names(n.value))
+        elif isinstance(n, ast.Expr) and isinstance(n.value, ast.Call) and isinstance(n.value.func, ast.Attribute):
+            base = n.value.func.value
+            while isinstance(base, (ast.Subscript, ast.Attribute)):
+                base = base.value
+            if isinstance(base, ast.Name):  # x.m(args): x may be updated from the arguments
+                add(base.id, n.lineno, set().union(*[_names(a) for a in n.value.args],
+                                                   *[_names(k.value) for k in n.value.keywords]) if
+                    (n.value.args or n.value.keywords) else set())
+    # definitions that can reach the store: those textually before it, plus (back edges) those inside the outermost
+    # loop that encloses the store
+    bound = line
+    for n in _walk_same_scope(fi.node):
+        if isinstance(n, (ast.For, ast.AsyncFor, ast.While)) and n.lineno <= line <= (n.end_lineno or n.lineno):
+            bound = max(bound, n.end_lineno or line)
+    defs = {k: [d for d in v if d[0] <= bound] for k, v in defs.items()}
+    key_names = _names(key_node)
+    if isinstance(key_node, ast.Name) and key_node.id in defs:
+        prior = [d for d in defs[key_node.id] if d[0] <= line]
+        if prior:
+            key_names |= max(prior, key=lambda d: d[0])[1]
+    covered = key_names | {fi.selfname, recv}
+    work, seen, reached = set(_names(value_node)), set(), set()
+    while work:
+        nm = work.pop()
+        if nm in seen:
+            continue
+        seen.add(nm)
+        if nm in covered:
+            continue
+        if nm in params:
+            reached.add(nm)
+        for _, ns in defs.get(nm, []):
+            work |= ns
+    return sorted(reached - covered), sorted(key_names)
+
+
+# ---------------------------------------------------------------------------------------------------------------------
+#  native replays attached to failed obligations
+# ---------------------------------------------------------------------------------------------------------------------
+
+def _exec_replay(script):
+    ns = {}
+    try:
+        import warnings
+        with warnings.catch_warnings():
+            warnings.simplefilter("ignore")
+            with _budget(60):
+                exec(script, ns)
+        return ns.get("observed")
+    except _Timeout:
+        return dict(error="replay timed out")
+    except Exception as e:
+        return dict(error=f"{type(e).__name__}: {e}"[:300])
+
+
+def replay_generator(cls_names, meth, params):
+    """interleave a gate with a running generator query on the real class.  State |0>|+>|0>; after the first sample an
+    X is applied to qubit 0, so under the gates applied so far every later sample has qubit 0 = '1' with certainty: a
+    later sample starting with '0' has probability exactly 0 in the current circuit"""
+    extra = ""
+    if "marginal_qubits" in params:
+        extra += ", marginal_qubits=(0, 1)"
+    if "fix" in params:
+        extra += ", fix={2: '0'}"
+    out = None
+    for cn in cls_names:
+        script = (
+            "import quimb.tensor as qtn\n"
+            f"circ = qtn.{cn}(3)\n"
+            "circ.apply_gate('H', 1)\n"
+            f"it = circ.{meth}(30, seed=0{extra})\n"
+            "first = next(it)\n"
+            "circ.apply_gate('X', 0)      # from now on qubit 0 is '1' with certainty\n"
+            "rest = list(it)\n"
+            f"fresh = list(circ.{meth}(30, seed=1{extra}))\n"
+            "observed = dict(first=first, remaining=len(rest), remaining_with_qubit0_equal_0=sum(s[0] == '0' for s in rest),\n"
+            "                fresh_generator_with_qubit0_equal_0=sum(s[0] == '0' for s in fresh), examples=rest[:4])\n")
+        ob = _exec_replay(script)
+        rec = dict(cls=cn, script=script, observed=ob)
+        if isinstance(ob, dict) and "error" not in ob:
+            rec["reproduced"] = ob["remaining_with_qubit0_equal_0"] > 0 and ob["fresh_generator_with_qubit0_equal_0"] == 0
+            rec["expected"] = "no sample drawn after the X gate starts with '0' (probability 0 for the gates applied so far)"
+            if out is None or (rec["reproduced"] and not out.get("reproduced")):
+                out = rec
+            if rec["reproduced"]:
+                break
+        elif out is None:
+            out = rec
+    return out
+
+
+def replay_copy(cls_names):
+    out = None
+    for cn in cls_names:
+        script = (
+            "import quimb.tensor as qtn\n"
+            f"circ = qtn.{cn}(2); circ.apply_gate('H', 0); circ.apply_gate('H', 1)\n"
+            "list(circ.sample(1, seed=0, group_size=1))      # fills part of the conditional cache\n"
+            "c2 = circ.copy()                                # copies stamp + two of the cache fields\n"
+            "try:\n"
+            "    observed = dict(samples=list(c2.sample(20, seed=1, group_size=1)))\n"
+            "except Exception as e:\n"
+            "    observed = dict(exception=f'{type(e).__name__}: {e}', copy_has_size_field=hasattr(c2, '_marginal_storage_size'),\n"
+            "                    copy_stamp=c2._sample_n_gates, copy_num_gates=c2.num_gates)\n")
+        ob = _exec_replay(script)
+        rec = dict(cls=cn, script=script, observed=ob,
+                   reproduced=isinstance(ob, dict) and "exception" in ob and "AttributeError" in ob["exception"])
+        if out is None or rec["reproduced"]:
+            out = rec
+        if rec["reproduced"]:
+            break
+    return out
+
+
+# ---------------------------------------------------------------------------------------------------------------------
+#  leaf obligations: the declared summaries are what the code does
+# ---------------------------------------------------------------------------------------------------------------------
+
+def _body_wo_doc(node):
+    b = list(node.body)
+    if b and isinstance(b[0], ast.Expr) and isinstance(b[0].value, ast.Constant) and isinstance(b[0].value.value, str):
+        b = b[1:]
+    return b
+
+
+def _calls_super(fi, name):
+    for n in ast.walk(fi.node):
+        if isinstance(n, ast.Call) and isinstance(n.func, ast.Attribute) and n.func.attr == name \
+                and isinstance(n.func.value, ast.Call) and isinstance(n.func.value.func, ast.Name) \
+                and n.func.value.func.id == "super":
+            return True
+    return False
+
+
+def _leaf_obligations(h, an, obs):
+    for c in h.circuit_classes:
+        fi = c.methods.get(VALIDATOR)
+        if fi is not None:
+            s, b = fi.selfname, _body_wo_doc(fi.node)
+            ok = False
+            if len(b) == 1 and isinstance(b[0], ast.If) and not b[0].orelse and isinstance(b[0].test, ast.Compare) \
+                    and len(b[0].test.ops) == 1 and isinstance(b[0].test.ops[0], ast.NotEq):
+                l, r = b[0].test.left, b[0].test.comparators[0]
+                pair = {(_is_self_attr(l, s, STAMP), _is_self_attr(r, s, COUNTER_PROP)),
+                        (_is_self_attr(r, s, STAMP), _is_self_attr(l, s, COUNTER_PROP))}
+                body = b[0].body
+                ok = (True, True) in pair and len(body) == 1 and isinstance(body[0], ast.Expr) \
+                    and isinstance(body[0].value, ast.Call) and _is_self_attr(body[0].value.func, s, INVALIDATOR)
+            ok = ok or (c is not h.base and _calls_super(fi, VALIDATOR))
+            obs.append(ObResult(f"{c.rel}::{c.name}.{VALIDATOR}::cache-leaf-validator", "typestate",
+                                "discharged" if ok else "failed", "ast", 0.0, function=f"{c.rel}::{c.name}.{VALIDATOR}",
+                                engine="E4", line=fi.node.lineno,
+                                detail=f"expects: if self.{STAMP} != self.{COUNTER_PROP}: self.{INVALIDATOR}()",
+                                model=None if ok else dict(source=ast.unparse(fi.node))))
+        fi = c.methods.get(INVALIDATOR)
+        if fi is not None:
+            s = fi.selfname
+            reset, stamp_ok = set(), False
+            for n in _body_wo_doc(fi.node):
+                if isinstance(n, ast.Expr) and isinstance(n.value, ast.Call) and isinstance(n.value.func, ast.Attribute) \
+                        and n.value.func.attr == "clear" and _is_self_attr(n.value.func.value, s):
+                    reset.add(n.value.func.value.attr)
+                if isinstance(n, ast.Assign) and len(n.targets) == 1 and _is_self_attr(n.targets[0], s):
+                    f, v = n.targets[0].attr, n.value
+                    if f == STAMP:
+                        stamp_ok = _is_self_attr(v, s, COUNTER_PROP) or (
+                            isinstance(v, ast.Call) and isinstance(v.func, ast.Name) and v.func.id == "len"
+                            and v.args and _is_self_attr(v.args[0], s, GATE_LIST))
+                        if stamp_ok:
+                            reset.add(f)
+                    elif isinstance(v, ast.Constant) or (isinstance(v, (ast.Dict, ast.List, ast.Set, ast.Tuple))
+                                                         and not (getattr(v, "keys", None) or getattr(v, "elts", None))) \
+                            or (isinstance(v, ast.Call) and isinstance(v.func, ast.Name) and v.func.id in
+                                ("dict", "list", "set") and not v.args):
+                        reset.add(f)
+            sup = c is not h.base and _calls_super(fi, INVALIDATOR)
+            missing = sorted(an.cache_fields - reset) if not sup else []
+            ok = not missing
+            obs.append(ObResult(f"{c.rel}::{c.name}.{INVALIDATOR}::cache-leaf-invalidator", "typestate",
+                                "discharged" if ok else "failed", "ast", 0.0, function=f"{c.rel}::{c.name}.{INVALIDATOR}",
+                                engine="E4", line=fi.node.lineno,
+                                detail=dict(resets=sorted(reset), cache_fields=sorted(an.cache_fields)),
+                                model=None if ok else dict(not_reset=missing, source=ast.unparse(fi.node))))
+        fi = c.methods.get(COUNTER_PROP)
+        if fi is not None:
+            s, b = fi.selfname, _body_wo_doc(fi.node)
+            ok = fi.kind == "property" and len(b) == 1 and isinstance(b[0], ast.Return) and isinstance(b[0].value, ast.Call) \
+                and isinstance(b[0].value.func, ast.Name) and b[0].value.func.id == "len" and b[0].value.args \
+                and _is_self_attr(b[0].value.args[0], s, GATE_LIST)
+            obs.append(ObResult(f"{c.rel}::{c.name}.{COUNTER_PROP}::cache-leaf-counter", "typestate",
+                                "discharged" if ok else "failed", "ast", 0.0,
+                                function=f"{c.rel}::{c.name}.{COUNTER_PROP}", engine="E4", line=fi.node.lineno,
+                                detail=f"expects: property returning len(self.{GATE_LIST})",
+                                model=None if ok else dict(source=ast.unparse(fi.node))))
+
+
+def _r4_verdict(an, fields_written, creates_raw, is_ctor):
+    """fields_written: {field: value node}.  returns (ok, reason)"""
+    W = set(fields_written)
+    ALL = set(an.cache_fields)
+    if not W and not creates_raw and not is_ctor:
+        return True, "writes no cache field of another object"
+    if W == ALL:
+        return True, "all cache fields written"
+    v = fields_written.get(STAMP)
+    neg_const = (isinstance(v, ast.UnaryOp) and isinstance(v.op, ast.USub) and isinstance(v.operand, ast.Constant)
+                 and isinstance(v.operand.value, (int, float)) and v.operand.value > 0) or \
+                (isinstance(v, ast.Constant) and isinstance(v.value, (int, float)) and v.value < 0)
+    if neg_const and an.containers <= W:
+        return True, (f"object left recognisably invalid: stamp = negative constant, containers the invalidator clears "
+                      f"({sorted(an.containers)}) initialised; the first validator call creates the rest")
+    missing = sorted(ALL - W)
+    return False, (f"writes {sorted(W)} but not {missing}; the stamp is "
+                   f"{'copied / non-constant' if STAMP in W and not neg_const else 'not written'}, so the new object can "
+                   f"count as valid while {missing} do not exist")
+
+
+def provider_cache(tier="quick", root=None, replays=True):
+    t0 = time.time()
+    obs = []
+    try:
+        h = Hierarchy(root)
+    except Exception as e:
+        return [ObResult(f"{CIRC}::cache-census", "typestate", "unknown", "ast", 0.0, function=CIRC, engine="E4",
+                         detail=f"cannot parse: {type(e).__name__}: {e}")]
+    if h.base is None:
+        return [ObResult(f"{CIRC}::cache-census", "typestate", "unknown", "ast", 0.0, function=CIRC, engine="E4",
+                         detail=f"no class defines the declared validator {VALIDATOR}")]
+    an = CacheAnalysis(h)
+    # pass 1: all summaries in all contexts (fills the caller map)
+    table = []
+    for c in h.circuit_classes:
+        for fi in c.methods.values():
+            ctxs = h.subclasses_inheriting(fi)
+            table.append((c, fi, ctxs, {k.name: an.summary(k, fi) for k in ctxs}))
+    _leaf_obligations(h, an, obs)
+    importable = set()
+    try:
+        import quimb.tensor as qtn
+        importable = {k.name for k in h.circuit_classes if hasattr(qtn, k.name)}
+    except Exception:
+        pass
+    n_access = n_gen = 0
+    unresolved = set()
+    for c, fi, ctxs, sums in table:
+        fid = f"{c.rel}::{fi.qual}"
+        byrule = {}
+        touches, notes = set(), []
+        for kn, sm in sums.items():
+            touches |= sm.touches
+            unresolved |= sm.unresolved
+            for n_ in sm.notes:
+                if n_ not in notes:
+                    notes.append(n_)
+            for rule, line, msg in sm.violations:
+                byrule.setdefault(rule, []).append(dict(context=kn, line=line, what=msg))
+        if "cache" in touches:
+            n_access += 1
+        if fi.is_generator:
+            n_gen += 1
+        ctxnames = [k.name for k in ctxs]
+        common = dict(contexts=ctxnames)
+        if notes:
+            common["notes"] = notes[:8]
+        r4_relevant = any(sm.r4 or sm.raw_new for sm in sums.values()) or (fi.name in CONSTRUCTORS and c is h.base)
+        r5_relevant = any(sm.r5 for sm in sums.values())
+        dirty_ctx = [kn for kn, sm in sums.items() if sm.dirty_exit == DIRTY]
+        relevant = touches or byrule or r4_relevant or r5_relevant or fi.is_generator
+        if not relevant:
+            obs.append(ObResult(f"{fid}::cache-frame", "typestate", "discharged", "ast", 0.0, function=fid, engine="E4",
+                                line=fi.node.lineno,
+                                detail=dict(common, derived="touches neither the cache nor the gate list / parameters / "
+                                                            "state, and calls no method of the hierarchy that does")))
+            continue
+        emitted = False
+        # ---- R1
+        if "cache" in touches or "R1" in byrule or "REFLECT" in byrule:
+            bad = byrule.get("R1", [])
+            st = "failed" if bad else ("unknown" if "REFLECT" in byrule else "discharged")
+            obs.append(ObResult(f"{fid}::cache-R1-validated-before-access", "typestate", st, "ast", 0.0, function=fid,
+                                engine="E4", line=bad[0]["line"] if bad else fi.node.lineno,
+                                detail=dict(common, reflective=byrule.get("REFLECT", []),
+                                            exempt=("leaf (validator / invalidator / constructor): checked by cache-leaf-* "
+                                                    "and cache-R4") if fi.name in (VALIDATOR, INVALIDATOR) or fi.name in CONSTRUCTORS else None),
+                                model=dict(violations=bad) if bad else None))
+            emitted = True
+        # ---- R2
+        if fi.is_generator or "R2" in byrule:
+            bad = byrule.get("R2", [])
+            model = None
+            if bad:
+                model = dict(violations=bad)
+                if replays:
+                    cands = [k for k in ctxnames if k in importable]
+                    model["native_replay"] = replay_generator(cands, fi.name, fi.params) if cands else None
+            obs.append(ObResult(f"{fid}::cache-R2-revalidated-after-yield", "typestate", "failed" if bad else "discharged",
+                                "ast", 0.0, function=fid, engine="E4", line=bad[0]["line"] if bad else fi.node.lineno,
+                                detail=common, model=model))
+            emitted = True
+        # ---- R3
+        if touches & {"mutate", "invalidate", "call"} or "R3" in byrule or dirty_ctx:
+            bad = list(byrule.get("R3", []))
+            carried = None
+            if dirty_ctx and fi.name not in CONSTRUCTORS:
+                if fi.public or fi.kind in ("property", "setter"):
+                    bad.append(dict(context=dirty_ctx, line=fi.node.lineno,
+                                    what="a normal exit is reachable with a change of gate record / parameters / state "
+                                         "that is followed neither by clear_storage() nor by an append to the gate list"))
+                else:
+                    callers = sorted(set().union(*[an.callers.get((kn, fi.qual), set()) for kn in dirty_ctx]))
+                    if callers:
+                        carried = callers
+                    else:
+                        bad.append(dict(context=dirty_ctx, line=fi.node.lineno,
+                                        what="private helper leaves the cache stale and no method of the hierarchy calls "
+                                             "it (nothing re-establishes the invariant)"))
+            det = dict(common)
+            if carried:
+                det["summary"] = "leaves the cache stale on exit; the obligation is carried by its callers, each of which " \
+                                 "is checked with this summary"
+                det["callers"] = carried
+            if fi.name in REPR_ONLY_METHODS:
+                det["assumption"] = REPR_ONLY_METHODS[fi.name]
+            obs.append(ObResult(f"{fid}::cache-R3-mutation-ends-invalidated", "typestate",
+                                "failed" if bad else "discharged", "ast", 0.0, function=fid, engine="E4",
+                                line=bad[0]["line"] if bad else fi.node.lineno, detail=det,
+                                model=dict(violations=bad) if bad else None))
+            emitted = True
+        # ---- R4
+        if r4_relevant:
+            bad, reasons = [], []
+            for kn, sm in sums.items():
+                recvs = dict(sm.r4)
+                for nm in sm.raw_new:
+                    recvs.setdefault(nm, {})
+                if fi.name in CONSTRUCTORS and c is h.base:
+                    recvs.setdefault(fi.selfname, {})
+                for r, fw in recvs.items():
+                    ok, why = _r4_verdict(an, fw, r in sm.raw_new, fi.name in CONSTRUCTORS)
+                    reasons.append(f"{r}: {why}")
+                    if not ok:
+                        bad.append(dict(context=kn, receiver=r, what=why))
+                break  # identical in every context (syntactic)
+            model = None
+            if bad:
+                model = dict(violations=bad)
+                if replays:
+                    # any class of the hierarchy that inherits this method and has a caching sampler
+                    cands = [k for k in ["Circuit", "CircuitDense"] + ctxnames if k in importable]
+                    model["native_replay"] = replay_copy(cands[:2]) if cands else None
+            obs.append(ObResult(f"{fid}::cache-R4-copy-atomic", "typestate", "failed" if bad else "discharged", "ast", 0.0,
+                                function=fid, engine="E4", line=fi.node.lineno,
+                                detail=dict(common, verdicts=reasons, cache_fields=sorted(an.cache_fields)), model=model))
+            emitted = True
+        # ---- R5
+        if r5_relevant:
+            sm = next(iter(sums.values()))
+            bad, assumed, stores = [], {}, []
+            for line, container, key_node, value_node, recv in sm.r5:
+                unc, keyn = r5_uncovered(fi, line, key_node, value_node, recv)
+                hard = [a for a in unc if a not in REPR_ONLY_ARGS]
+                for a in unc:
+                    if a in REPR_ONLY_ARGS:
+                        assumed[a] = REPR_ONLY_ARGS[a]
+                stores.append(dict(line=line, container=f"{recv}.{container}", key=ast.unparse(key_node),
+                                   key_variables=keyn, not_in_key=unc))
+                if hard:
+                    bad.append(dict(line=line, container=f"{recv}.{container}", key=ast.unparse(key_node),
+                                    what=f"the cached value depends on {hard}, which the key does not contain and which "
+                                         f"are not declared representation-only: a later call with a different value "
+                                         f"is answered from the entry computed for the earlier one"))
+            obs.append(ObResult(f"{fid}::cache-R5-key-covers-dependencies", "typestate",
+                                "failed" if bad else "discharged", "ast", 0.0, function=fid, engine="E4",
+                                line=bad[0]["line"] if bad else fi.node.lineno,
+                                detail=dict(common, stores=stores, assumed_representation_only=assumed),
+                                model=dict(violations=bad) if bad else None))
+            emitted = True
+        if not emitted:
+            obs.append(ObResult(f"{fid}::cache-frame", "typestate", "discharged", "ast", 0.0, function=fid, engine="E4",
+                                line=fi.node.lineno, detail=common))
+    # census / vacuity guard
+    ok = n_access >= 8 and n_gen >= 4 and len(h.circuit_classes) >= 4 and set(DECLARED_CACHE_FIELDS) <= an.cache_fields
+    obs.append(ObResult(f"{CIRC}::cache-census", "typestate", "discharged" if ok else "unknown", "ast",
+                        time.time() - t0, function=CIRC, engine="E4",
+                        detail=dict(classes=[f"{k.rel}::{k.name}" for k in h.circuit_classes], methods=len(table),
+                                    methods_touching_cache=n_access, generators=n_gen,
+                                    cache_fields=sorted(an.cache_fields), containers=sorted(an.containers),
+                                    assumed_pure_unresolved_self_calls=sorted(unresolved),
+                                    floors="methods_touching_cache>=8, generators>=4, classes>=4")))
+    per = (time.time() - t0) / max(1, len(obs))
+    for o in obs:
+        if o.solver_s == 0.0:
+            o.solver_s = per
+    return obs
+
+
+PROVIDERS = [provider_gates, provider_cache]
